@@ -11,7 +11,7 @@ CHECKS = {
  "C02": ("exploration", "exhaustive enumeration of all programs of a typed control-flow grammar up to a size bound; differential against bash on traces and every intermediate $?",
          "All programs with <= 3/4 nodes over the full leaf set (+ exactly 4/5 nodes over a reduced leaf set) are run through Shell::run_script and through bash; traces with status probes must be equal.",
          "Trusted: bash 5.2.15 as oracle, the renderer. Not covered: larger programs.", "5/C02"),
- "C03": ("exploration", "exhaustive enumeration of failing-leaf placements x exemption contexts x option combinations (errexit, pipefail, inherit_errexit, errtrace/ERR) and of expansion forms x unset targets under nounset; differential against bash; the failing leaf also as builtin/external/assignment-with-failing-substitution/subshell/(( ))/[[ ]]",
+ "C03": ("exploration", "exhaustive enumeration of failing-leaf placements x exemption contexts x option combinations (errexit, pipefail, inherit_errexit, errtrace/ERR) and of expansion forms x unset targets under nounset; differential against bash; the failing leaf also as builtin/external/assignment-with-failing-substitution/subshell/(( ))/[[ ]]; and-or chains; pipeline stages inside exempt positions; units (function, nested function, eval) that switch errexit on in a shell started without it",
          "Every program with a failing leaf up to the size bound, in every wrapper and option set, plus toggles of set -e inside functions/subshells, is run on both shells; last marker, ERR markers and exit status compared.",
          "Trusted: bash as oracle. Script-file mode on both sides.", "5/C03"),
  "C04": ("exploration", "exhaustive enumeration of all values over a 20-symbol adversarial alphabet up to length 2/3 x 23 quoting contexts x 10 IFS/glob configurations; identity oracle on the argv seen by a capturing builtin; \"$@\"/\"${a[@]}\" glued to other pieces inside the same quotes",
@@ -20,7 +20,7 @@ CHECKS = {
  "C05": ("exploration", "exhaustive enumeration of all words of <= 2/3 pieces over 26 piece kinds x values x positional lists x IFS settings x directory trees; differential against bash on the resulting argument list; composite double-quoted pieces (defaults/alternates with inner quoting)",
          "Each word is expanded in-process (capturing builtin) and by bash under the same variables, IFS and files; argument lists must be identical.",
          "Trusted: bash as oracle.", "5/C05"),
- "C06": ("exploration", "exhaustive enumeration of (value, operator, operand) triples; differential against bash plus the bash-independent shortest/longest prefix/suffix law evaluated with a reference matcher; replacement texts; extglob alternation groups; every operator also through ${!r}, ${a[1]}, ${1}",
+ "C06": ("exploration", "exhaustive enumeration of (value, operator, operand) triples; differential against bash plus the bash-independent shortest/longest prefix/suffix law evaluated with a reference matcher; replacement texts; extglob alternation groups; every operator also through ${!r}, ${a[1]}, ${1}, associative elements; 31 list forms on 16 list targets (incl. lists of one or two empty elements as $@, $*, ${a[@]}, ${a[*]})",
          "All patterns up to length 2/3 x all values up to length 3 through the 8 pattern operators; substring forms over an offset/length grid; default family, case modification, transforms, indirection; scalars, positional lists, arrays; set/null/unset/declared-unset states with and without nounset.",
          "Trusted: bash as oracle; the reference matcher only on rows where it agrees with bash (counted).", "5/C06"),
  "C07": ("exploration", "exhaustive enumeration of all expression trees up to depth 1 (24 operands) and depth 2 (reduced operands) over all operators, rendered from the tree by the reference C precedence table; reference evaluator validated against bash + bash itself; expressions that differ only in white space but tokenise differently, evaluated pairwise in one shell (order dependence)",
@@ -29,16 +29,16 @@ CHECKS = {
  "C08": ("exploration", "exhaustive enumeration of all (pattern, subject) pairs over small alphabets through case, [[ ]], literal and quoted patterns, and of all small directory trees x glob patterns; differential against bash + reference matcher",
          "All patterns with <= 3/4 symbols x 259 subjects under extglob/nocasematch settings; pathname expansion over all trees of <= 2/3 names x 820 patterns x dotglob/nullglob.",
          "Trusted: bash under C.utf8 as oracle.", "5/C08"),
- "C09": ("exploration", "exhaustive enumeration of all action sequences up to length 2/3 over 44 writers/declarations at 4 placements (top level, function, caller+callee, depth 3); differential against bash on declare -p dumps and the child environment after every step; temporary assignments on failing builtins",
+ "C09": ("exploration", "exhaustive enumeration of all action sequences up to length 2/3 over 58 writers/declarations (incl. re-declaration of a local in the same call) at 4 placements (top level, function, caller+callee, depth 3); differential against bash on declare -p dumps and the child environment after every step; temporary assignments on failing builtins",
          "Every writer path (assignment, +=, element assignment, for, read, printf -v, (( )), ${v:=}, getopts, mapfile, temporary assignments) is combined with every attribute declaration and scope placement.",
          "Trusted: bash as oracle.", "5/C09"),
- "C10": ("exploration", "exhaustive enumeration of redirection lists up to length 2/3 over 26 items x 7 command kinds (+noclobber) and of here-document bodies x delimiter forms x placements, here-strings (17 words x 7 consumers) and here-document/here-string bodies of six sizes around the 64 KiB pipe capacity and the 1 MiB pipe size limit x 6 consumers; differential against bash + restoration invariant",
+ "C10": ("exploration", "exhaustive enumeration of redirection lists up to length 2/3 over 26 items x 7 command kinds (+noclobber) and of here-document bodies x delimiter forms x placements, here-strings (17 words x 7 consumers) and here-document/here-string bodies of six sizes around the 64 KiB pipe capacity and the 1 MiB pipe size limit x 6 consumers; single redirections and pairs again after `cd` (top level / inside a subshell); differential against bash + restoration invariant",
          "Inside-command probe (which descriptors are open/readable/writable), all file contents, and the descriptor table a child sees before and after each command.",
          "Trusted: bash as oracle; diagnostic wording is not compared.", "5/C10"),
- "C11": ("exploration", "exhaustive enumeration of pipeline shapes (stage kind x position) x payload sizes around the pipe capacity x stage delays x early-exit consumers, and of command substitutions whose writer is the shell itself (10 bodies x 3 sizes), on the real binary under a wall-clock cap; differential against bash",
+ "C11": ("exploration", "exhaustive enumeration of pipeline shapes (stage kind x position) x payload sizes around the pipe capacity x stage delays x early-exit consumers, and of command substitutions whose writer is the shell itself (13 bodies incl. nested substitutions x 3 sizes), on the real binary under a wall-clock cap; differential against bash",
          "Every stage kind (external, builtin, function, group, subshell, while-read) in every position of 2/3/4-stage pipelines with payloads from 0 B to 1 MiB; output checksum, PIPESTATUS, $?; hangs confirmed by an isolated re-run.",
          "Trusted: bash as oracle; cap = max(2.5 s, 20 x bash's time), doubled on confirmation. Stage-start orders below the 0/100 ms delay granularity are not enumerated.", "5/C11"),
- "C12": ("exploration", "exhaustive enumeration of mutator sequences up to length 2/3 over 40 mutators inside 10 subshell contexts; self-differential on a full dump of the parent (serde Shell state + process-level state); 14 contexts incl. 3/4-stage pipelines x 5 parent option modes; exec-with-command mutators",
+ "C12": ("exploration", "exhaustive enumeration of mutator sequences up to length 2/3 over 44 mutators inside 23 subshell contexts (incl. 3/4-stage pipelines, `&` ending nested lists, background jobs collected by `wait %n`) x 5 parent option modes; self-differential on a full dump of the parent (serde Shell state + process-level state); exec-with-command mutators",
          "The parent's complete state before the subshell construct must equal the state after it; process-wide umask, RLIMIT_NOFILE, cwd and descriptor count are read by the harness itself.",
          "Trusted: the dump/diff code. Concurrent orders of the asynchronous contexts are not enumerated.", "5/C12"),
  "C13": ("exploration", "exhaustive enumeration of all values over a 21-symbol quoting alphabet up to length 2/3 x 16 producers; round-trip oracle through a fresh brush and through bash",
